@@ -132,6 +132,16 @@ CATALOGUE = [
     ('C15', 'element-write-lost', 'bacpypes/constructeddata.py', "            else:\n                self.value[item] = value\n\n        def __delitem__", "            else:\n                pass\n\n        def __delitem__"),
     ('C15', 'wrong-error-code-readonly', 'bacpypes/object.py', "                raise ExecutionError(errorClass='property', errorCode='writeAccessDenied')\n\n            # if changing the length of the array",
      "                raise ExecutionError(errorClass='property', errorCode='valueOutOfRange')\n\n            # if changing the length of the array"),
+    # ---- C17
+    ('C17', 'highest-priority-skips-16', 'bacpypes/local/object.py', "            for i in range(1, 17):\n                priority_value = priority_array[i]", "            for i in range(1, 16):\n                priority_value = priority_array[i]"),
+    ('C17', 'no-priority-means-15', 'bacpypes/local/object.py', "                if priority is None:\n                    priority = 16", "                if priority is None:\n                    priority = 15"),
+    ('C17', 'relinquish-skips-recompute', 'bacpypes/local/object.py', "                        priority_value.null = value\n                        setattr(priority_value, _Commando._pv_choice, None)", "                        priority_value.null = value\n                        setattr(priority_value, _Commando._pv_choice, None)\n                        return"),
+    ('C17', 'priority-17-accepted-as-16', 'bacpypes/local/object.py', "                    if (arrayIndex < 1) or (arrayIndex > 16):\n                        raise ExecutionError(\n                            errorClass=\"property\", errorCode=\"invalidArrayIndex\"\n                        )",
+     "                    if arrayIndex > 16:\n                        arrayIndex = 16"),
+    ('C17', 'min-times-swapped-again', 'bacpypes/local/object.py', "        if new_value == \"active\":\n            task_delay = getattr(self.binary_obj, \"minimumOnTime\") or 0", "        if new_value == \"inactive\":\n            task_delay = getattr(self.binary_obj, \"minimumOnTime\") or 0"),
+    ('C17', 'min-timer-never-releases', 'bacpypes/local/object.py', "        # clear the value at priority 6\n        self.binary_obj.WriteProperty(\"presentValue\", (), priority=6)", "        # clear the value at priority 6\n        pass"),
+    ('C17', 'unchanged-value-skips-slot-update', 'bacpypes/local/object.py', "            # update the priority array entry\n            if property == priorityArray:\n                if arrayIndex is None:",
+     "            # update the priority array entry\n            if property == priorityArray and arrayIndex is not None and value != () and value == getattr(self, presentValue):\n                return\n            if property == priorityArray:\n                if arrayIndex is None:"),
     # ---- C12
     ('C12', 'window-max-instead-of-min', 'bacpypes/appservice.py', "        self.actualWindowSize = min(apdu.apduWin, self.ssmSAP.proposedWindowSize)\n        if _debug: ServerSSM._debug(",
      "        self.actualWindowSize = max(apdu.apduWin, self.ssmSAP.proposedWindowSize)\n        if _debug: ServerSSM._debug("),
